@@ -1,6 +1,7 @@
 """C02 - error recovery is total (DESIGN §2 C02).
 Monitors: exception observer + shape contract on Grammar.parse; logical step budget
 (sys.monitoring LINE events inside tokenizer/parser loops) instead of wall-clock."""
+import os
 import random
 import sys
 
@@ -16,7 +17,7 @@ RULE = ('cases = hostile mix (12% preceded by an abandoned strict parse / unexha
         'versions; judged by an exception observer and a shape contract on Grammar.parse (parentless file_input, last '
         'child the only end marker, no empty interior node, str value/prefix) and a logical step budget on '
         'sys.monitoring LINE events in parso.python.tokenize / parso.parser / parso.python.parser '
-        '(events <= 4000*(len+lines+10)). non-trivial = distinct input whose tree contains an error node or leaf')
+        '(events <= 4000*(len+lines+10)), and a CPU-time budget (20 s per input, measured on a killable child process; typical cost is milliseconds). non-trivial = distinct input whose tree contains an error node or leaf')
 ASSUMPTIONS = ['nesting <= 100 by construction of the generators; a RecursionError is excused only when the '
                'independent nesting estimator exceeds 100', 'default recursion limit, call made from a shallow stack']
 
@@ -120,8 +121,88 @@ CONSTRUCTS = [
 ]
 
 
+_CHILD = r"""
+import sys, json
+sys.path.insert(0, sys.argv[1])
+import parso
+for line in sys.stdin:
+    v, code = json.loads(line)
+    try:
+        parso.load_grammar(version=v).parse(code)
+    except RecursionError:
+        pass
+    except Exception:
+        pass
+    sys.stdout.write('k\n'); sys.stdout.flush()
+"""
+CPU_BUDGET_S = 20
+
+
+def _cpu_seconds(pid):
+    try:
+        with open('/proc/%d/stat' % pid) as f:
+            parts = f.read().rsplit(')', 1)[1].split()
+        return (int(parts[11]) + int(parts[12])) / float(os.sysconf('SC_CLK_TCK'))
+    except Exception:
+        return None
+
+
+def shard_termination(spec, ctx):
+    """bounded progress, judged on the *CPU time* a killable child spends on one input (never on wall-clock): a parse
+    of a few hundred characters normally costs milliseconds; more than CPU_BUDGET_S seconds means no progress -- this also
+    sees a spin inside C code (e.g. catastrophic regex backtracking), which LINE events and signals cannot."""
+    import json
+    import select
+    import subprocess
+    rng = random.Random(spec['seed'])
+    files = G.corpus_files()
+
+    def start():
+        return subprocess.Popen([harness.PY, '-c', _CHILD, harness.REPO], stdin=subprocess.PIPE, stdout=subprocess.PIPE,
+                                stderr=subprocess.DEVNULL, env=dict(os.environ, PYTHONDONTWRITEBYTECODE='1'))
+    child = start()
+    try:
+        for i in range(spec['n']):
+            if ctx.out_of_time():
+                ctx.count('stopped_by_time_budget')
+                break
+            v = harness.VERSIONS[i % 9]
+            code = G.mixed(rng) if i % 3 else G.hostile(rng, files)
+            c0 = _cpu_seconds(child.pid) or 0.0
+            child.stdin.write((json.dumps([v, code]) + '\n').encode())
+            child.stdin.flush()
+            ctx.count('evaluations')
+            ctx.count('termination_cases')
+            while True:
+                r, _, _ = select.select([child.stdout], [], [], 2.0)
+                if r:
+                    if not child.stdout.readline():
+                        ctx.count('termination_child_died')
+                        child = start()
+                    break
+                used = (_cpu_seconds(child.pid) or 0.0) - c0
+                if child.poll() is not None:
+                    ctx.count('termination_child_died')
+                    child = start()
+                    break
+                if used > CPU_BUDGET_S:
+                    child.kill()
+                    child.wait()
+                    ctx.violation('cpu_budget', 'parsing %d characters used more than %d s of CPU time without returning' % (len(code), CPU_BUDGET_S),
+                                  {'version': v, 'code': code})
+                    child = start()
+                    break
+    finally:
+        try:
+            child.kill()
+        except Exception:
+            pass
+
+
 def run_shard(spec, ctx):
     import parso
+    if spec['kind'] == 'termination':
+        return shard_termination(spec, ctx)
     _install(ctx)
     steps = spec.get('steps')
     if steps:
@@ -161,6 +242,7 @@ def run_shard(spec, ctx):
             except Exception:
                 pass
         prev = code
+        _state['events'] = 0       # logical steps of the judged parse only
         try:
             g.parse(code)
         except BaseException as e:
@@ -193,6 +275,7 @@ def shards(tier, seed):
            'budget_s': 60 if tier == 'quick' else 900} for i in range(nf)]
     s += [{'kind': 'hostile', 'n': 1500 if tier == 'quick' else 40000, 'steps': True,
            'budget_s': 60 if tier == 'quick' else 900} for i in range(4 if tier == 'quick' else 8)]
+    s += [{'kind': 'termination', 'n': 12000 if tier == 'quick' else 300000, 'budget_s': 60 if tier == 'quick' else 1200} for _ in range(2)]
     ladder = [1, 2, 3, 5, 8, 13, 21, 34, 55, 80, 90, 95] if tier == 'quick' else list(range(1, 96))
     s += [{'kind': 'ladder', 'depths': ladder[i::4]} for i in range(4)]
     if tier == 'thorough':
@@ -201,7 +284,7 @@ def shards(tier, seed):
 
 
 def floors(tier):
-    return {'evaluations': 5000, 'trees_with_errors': 1000, 'step_budget_checks': 500, 'ladder_cases': 100}
+    return {'evaluations': 5000, 'trees_with_errors': 1000, 'step_budget_checks': 500, 'ladder_cases': 100, 'termination_cases': 3000}
 
 
 def _ver(args):
